@@ -801,6 +801,9 @@ func runC05(c *Ctx) {
 	clauseSortedChunks(c, "C05.g")
 	clausePreReadAccounting(c, "C05.h")
 	clauseDirLinkCount(c, "C05.i")
+	clauseTreeBuilderParity(c, "C05.j")
+	clauseResetCoversDecodedFields(c, "C05.k")
+	clauseExistingDirReused(c, "C05.l")
 	c.assume("bolt transactions are isolated; json.Decoder reads through the TeeReader only")
 }
 
